@@ -9,6 +9,8 @@
 
 #include <cmath>
 #include <cstdint>
+#include <algorithm>
+#include <cstring>
 #include <string>
 #include <utility>
 #include <vector>
@@ -189,6 +191,40 @@ inline std::string gen_numeral(Entropy &e) {
                 return s + "0." + std::string(z, '0') + "25e" + ((nines & 4U) ? "+" : "") + std::to_string(z + 1);
             }
             return s + "1" + std::string(z, '0') + ".5E-" + std::to_string(z);
+        }
+        if (look_alike_cps() && hsel >= 3) {
+            // a double from one of the three binades whose top lies closest above a power of ten (found by a scan, see C11's
+            // least-slack enumeration), spelled with 17 significant digits: where a 17-digit text has the least slack
+            static const std::vector<std::pair<uint64_t, uint64_t>> slivers = [] {
+                std::vector<std::pair<double, std::pair<uint64_t, uint64_t>>> v;
+                for (int k = -1021; k <= 1023; ++k) {
+                    const double p = std::ldexp(1.0, k);
+                    char         b[32];
+                    snprintf(b, sizeof b, "1e%d", int(std::floor(std::log10(p))));
+                    const double t = strtod(b, nullptr);
+                    if (t > 0 && t <= p && p / t < 1.04) {
+                        uint64_t lo, hi;
+                        memcpy(&lo, &t, 8);
+                        memcpy(&hi, &p, 8);
+                        if (hi > lo) {
+                            v.push_back({p / t, {lo, hi}});
+                        }
+                    }
+                }
+                std::sort(v.begin(), v.end());
+                std::vector<std::pair<uint64_t, uint64_t>> o;
+                for (size_t i = 0; i < v.size() && i < 3; ++i) {
+                    o.push_back(v[i].second);
+                }
+                return o;
+            }();
+            const auto    &sv   = slivers[(hsel - 3) % slivers.size()];
+            const uint64_t bits = sv.first + e.u64() % (sv.second - sv.first);
+            double         d;
+            memcpy(&d, &bits, 8);
+            char b[40];
+            snprintf(b, sizeof b, "%.17g", d);
+            return s + b;
         }
         std::string         digits = std::string(heads[hsel]) + std::string(nines, '9');
         size_t              point  = (digits[0] == '0') ? 1 : 1 + e.below(uint32_t(digits.size())); // no leading zeros in RFC 8259
